@@ -763,6 +763,12 @@ pub fn fault_trees() -> Vec<(String, Vec<(String, Option<String>)>, bool)> {
         ("include directive without a name".into(), vec![("main.a2l".into(), Some(format!("{head}/include\n{tail}")))], true),
         ("file including itself".into(), vec![("main.a2l".into(), Some(format!("{head}/include \"main.a2l\"\n{tail}")))], true),
         ("mutual inclusion".into(), vec![("main.a2l".into(), Some(format!("{head}/include \"a.a2l\"\n{tail}"))), ("a.a2l".into(), Some("/include \"b.a2l\"\n".into())), ("b.a2l".into(), Some("/include \"a.a2l\"\n".into()))], true),
+        // files that hold include directives and nothing else, over include files without tokens: an empty input, reported as such
+        ("main file of one include directive, include file empty".into(), vec![("main.a2l".into(), Some("/include \"e.a2l\"\n".into())), ("e.a2l".into(), Some(String::new()))], true),
+        ("main file of two include directives, include files blank".into(), vec![("main.a2l".into(), Some("\n  /include e.a2l\n/include \"sub/e2.a2l\"\n\n".into())), ("e.a2l".into(), Some(" \n\t\n".into())), ("sub/e2.a2l".into(), Some("\n".into()))], true),
+        ("main file includes a file that includes an empty file".into(), vec![("main.a2l".into(), Some("/include \"a.a2l\"\n".into())), ("a.a2l".into(), Some("/include \"e.a2l\"\n".into())), ("e.a2l".into(), Some(String::new()))], true),
+        ("empty main file".into(), vec![("main.a2l".into(), Some(String::new()))], true),
+        ("blank main file".into(), vec![("main.a2l".into(), Some(" \n\n\t ".into()))], true),
         ("A2ML include missing".into(), vec![("main.a2l".into(), Some(format!("{head}/begin A2ML /include \"nope.aml\"\n/end A2ML\n{tail}")))], false),
         ("A2ML including itself".into(), vec![("main.a2l".into(), Some(format!("{head}/begin A2ML /include \"self.aml\"\n/end A2ML\n{tail}"))), ("self.aml".into(), Some("/include \"self.aml\"\n".into()))], false),
     ]
@@ -929,7 +935,7 @@ pub fn run(tier: &str) -> Run {
                     run.violation(format!("C16/fault-panics/{label}"), format!("{label}: {line}"), replay);
                 } else if *expect_err && !line.starts_with("RESULT err") {
                     run.violation(format!("C16/fault-not-reported/{label}"), format!("{label}: expected an error, got: {line}"), replay);
-                } else if *expect_err && !(line.contains("include") || line.contains("Include")) {
+                } else if *expect_err && !(line.contains("include") || line.contains("Include")) && !(label.contains("main file") && line.contains("no a2l data")) {
                     run.violation(format!("C16/fault-error-does-not-name-directive/{label}"), format!("{label}: {line}"), replay);
                 } else {
                     run.outcome("fault: reported as error / tolerated");
